@@ -4,6 +4,7 @@ import (
 	"bytes"
 	"math"
 	"math/rand"
+	"os"
 	"time"
 )
 
@@ -505,6 +506,32 @@ func (g *genCfg) boundaryCases() []Case {
 		cs = append(cs, Case{Label: "threshold-reg", T: &T{K: "reg", Name: "HPoint"}, V: &V{K: "list", L: []*V{{K: "int", I: -7}, {K: "int", I: 300}}},
 			Opts: Opts{HasRegCache: true, RegCache: []RegCacheEnt{{Short: "HPoint", ID: id}}}})
 	}
+	// element counts around the byte boundaries of the uint32 count
+	i8 := &T{K: "prim", P: "PInt8"}
+	many := func(n int) *V {
+		out := &V{K: "list", L: []*V{}}
+		for i := 0; i < n; i++ {
+			out.L = append(out.L, &V{K: "int", I: int64(i%7) - 3})
+		}
+		return out
+	}
+	counts := []int{255, 256, 257, 1000}
+	if os.Getenv("VERIF_TIER") == "thorough" {
+		counts = append(counts, 65535, 65536, 65537)
+	}
+	for _, n := range counts {
+		cs = append(cs, Case{Label: "boundary-count", T: &T{K: "slice", E: i8}, V: many(n)})
+	}
+	cs = append(cs, Case{Label: "boundary-count", T: &T{K: "array", N: 256, E: i8}, V: many(256)})
+	hl := many(257)
+	cs = append(cs, Case{Label: "boundary-count", T: &T{K: "reg", Name: "HList"}, V: hl})
+	cs = append(cs, Case{Label: "boundary-count", T: &T{K: "any"}, V: &V{K: "any", T: &T{K: "slice", E: &T{K: "any"}}, X: &V{K: "list", L: []*V{{K: "any", T: &T{K: "slice", E: i8}, X: many(256)}}}}})
+	cs[len(cs)-1].T, cs[len(cs)-1].V = cs[len(cs)-1].V.T, cs[len(cs)-1].V.X
+	bm := &V{K: "map", M: [][2]*V{}}
+	for i := 0; i < 256; i++ {
+		bm.M = append(bm.M, [2]*V{{K: "int", I: int64(i) - 100}, {K: "bool", B: i%3 == 0}})
+	}
+	cs = append(cs, Case{Label: "boundary-count", T: &T{K: "map", Key: &T{K: "prim", P: "PInt"}, E: &T{K: "prim", P: "PBool"}}, V: bm})
 	// deep nesting
 	deep := &T{K: "prim", P: "PInt8"}
 	dv := &V{K: "int", I: -128}
